@@ -288,6 +288,39 @@ theorem spawnclean_ok_reachable (c : SpawnClean.Cfg) (ops : List SpawnClean.Op) 
     · simp [failed_spawn_cleanup_leaves_nothing c ops hf hd]
     · simp [hd]
 
+/-- **Waiters are released — every one of them.** For a spawn that got a cell (no name clash): when a
+failed spawn has finished its cleanup, the number of `wait()` calls that have returned equals the number
+of `wait()` calls ever issued on the cell — before the start task was polled, during pre_start, in the
+middle of the cleanup, or afterwards — and none is parked. -/
+theorem every_waiter_returns (c : SpawnClean.Cfg) (hnc : (c.named && c.nameTaken) = false)
+    (rest : List SpawnClean.Op)
+    (hf : SpawnClean.failed (SpawnClean.run c (.begin :: rest)) = true)
+    (hd : (SpawnClean.run c (.begin :: rest)).pc = .done) :
+    (SpawnClean.run c (.begin :: rest)).released = rest.count .wait ∧
+    (SpawnClean.run c (.begin :: rest)).waiting = 0 := by
+  have hcl := failed_spawn_cleanup_leaves_nothing c (.begin :: rest) hf hd
+  have hw0 : (SpawnClean.run c (.begin :: rest)).waiting = 0 := by
+    simp only [SpawnClean.clean, Bool.and_eq_true, beq_iff_eq] at hcl
+    exact hcl.1.1.1.1.1.2
+  have hb : (SpawnClean.step c {} .begin).exists_ = true ∧ (SpawnClean.step c {} .begin).pc ≠ .init ∧
+      (SpawnClean.step c {} .begin).waiting = 0 ∧ (SpawnClean.step c {} .begin).released = 0 := by
+    simp only [SpawnClean.step, hnc]
+    cases c.instant <;> simp
+  have hs := SpawnClean.waitSum_run c rest _ hb.1 hb.2.1
+  simp only [SpawnClean.run, List.foldl_cons] at hw0 ⊢
+  rw [hb.2.2.1, hb.2.2.2] at hs
+  omega
+
+/-- **A name clash changes nothing**: the spawn fails at once with `AlreadyRegistered`, no cell is ever
+visible, and whatever is requested afterwards no component of the world is touched (the holder of the
+name is a constant of the model: `Cfg.nameTaken`). -/
+theorem name_clash_touches_nothing (c : SpawnClean.Cfg) (hn : c.named = true) (ht : c.nameTaken = true)
+    (rest : List SpawnClean.Op) : SpawnClean.Untouched (SpawnClean.run c (.begin :: rest)) := by
+  simp only [SpawnClean.run, List.foldl_cons]
+  apply SpawnClean.untouched_run
+  simp only [SpawnClean.step, hn, ht]
+  constructor <;> simp
+
 /-- **The cleanup always completes**: from any state inside the cleanup, whatever the other threads
 did before, `togo` further steps of the spawn thread end it (`done`). -/
 theorem cleanup_runs_to_completion (c : SpawnClean.Cfg) (n : Nat) : ∀ w : SpawnClean.W,
@@ -369,7 +402,7 @@ example : (SpawnClean.run exampleCfg (exampleClean.take 8)).pc = .link ∧
 example : (SpawnClean.run exampleCfg exampleClean).pc = .done ∧
     (SpawnClean.run exampleCfg exampleClean).res = .err ∧
     (SpawnClean.run exampleCfg exampleClean).ports = [.senderError, .senderError, .sendErr, .sendErr] ∧
-    (SpawnClean.run exampleCfg exampleClean).released = 3 ∧
+    (SpawnClean.run exampleCfg exampleClean).released = 3 ∧ exampleClean.count .wait = 3 ∧
     SpawnClean.clean (SpawnClean.run exampleCfg exampleClean) = true := by decide
 
 end C08
@@ -396,6 +429,8 @@ end C08
 #print axioms C08.terminate_fuel_bound
 #print axioms C08.failed_spawn_cleanup_leaves_nothing
 #print axioms C08.spawnclean_ok_reachable
+#print axioms C08.every_waiter_returns
+#print axioms C08.name_clash_touches_nothing
 #print axioms C08.cleanup_runs_to_completion
 #print axioms C08.every_failure_cause_fails
 #print axioms C08.drained_child_still_links
